@@ -474,6 +474,7 @@ func c14Search(m *c14Model, r *core.Rec) {
 			deepest = n.path
 		}
 		m.converge(n.s, r, n.path)
+		r.Heartbeat()
 		for _, ev := range m.events(n.s) {
 			perEvent[ev.Op]++
 			ns := m.step(n.s, ev, r, n.path, verdicts)
